@@ -366,7 +366,7 @@ func evalImageCS(dir string, pool *storeh.Pool, followTok int64) (bool, []Op) {
 func lightDump(g *storeh.Gen) []Op {
 	ops := []Op{{Kind: "qbtip", WF: true}, {Kind: "qftip", WF: true}}
 	n := int64(len(g.Chain))
-	for _, h := range []int64{0, 1, 2, n / 2, 999, 1000, 1001, n - 2, n - 1, n, n + 1} {
+	for _, h := range []int64{0, 1, 2, n / 2, 999, 1000, 1001, 1999, 2000, 2001, 4096, n - 2, n - 1, n, n + 1} {
 		if h < 0 {
 			continue
 		}
